@@ -135,6 +135,26 @@ Definition write_trust_iter {A} (len : nat) (it : titer A) : wstatus * list (nat
 Definition apply_writes {A} (ws : list (nat * A)) (buf : list (option A)) : list (option A) :=
   fold_left (fun b w => set_nth (fst w) (snd w) b) ws buf.
 
+(* ---- UninitVec::set — the CHECKED single-slot write                              uninit.rs:32-40 --
+   `if idx < self.len() { unsafe { self.uset(idx, v) }; Ok(()) } else { tbail!(oob(idx, len)) }`.
+   Like write_trust_iter: the status and the list of uset calls made (none on the Err branch). *)
+Definition uninit_set {A} (len idx : nat) (v : A) : wstatus * list (nat * A) :=
+  if idx <? len then (WOk, [(idx, v)]) else (WErr, []).
+
+(* the same on a buffer (slot = None: never written): status and the buffer afterwards *)
+Definition uninit_set_buf {A} (buf : list (option A)) (idx : nat) (v : A) : wstatus * list (option A) :=
+  let r := uninit_set (length buf) idx v in (fst r, apply_writes (snd r) buf).
+
+(* successive `set` calls on one buffer, every TResult kept (the caller may `?` or ignore it):
+   the statuses in call order and the buffer afterwards *)
+Fixpoint uninit_set_seq {A} (buf : list (option A)) (calls : list (nat * A)) : list wstatus * list (option A) :=
+  match calls with
+  | [] => ([], buf)
+  | c :: r => let sb := uninit_set_buf buf (fst c) (snd c) in
+              let rest := uninit_set_seq (snd sb) r in
+              (fst sb :: fst rest, snd rest)
+  end.
+
 (* ---- Vec1Mut (view_mut.rs) and Vec1::sort_unstable_by (own.rs:68-88) ------------------------- *)
 (* get_mut: bounds-checked access                                              view_mut.rs:29-36 *)
 Definition get_mut {T} (xs : list T) (i : nat) : option T :=
